@@ -121,7 +121,7 @@ def run_wire(ctx, thorough, nrand=None):
         raise vlib.ToolError("sanity run: deviation remote-opens-any was not rejected by TLC")
     scripts = scripted() + [streams_to_script(i, c["ops"]) for i, c in enumerate(res.cases) if c.get("ops")]
     rng = random.Random(ctx.seed * 15485863 + 11)
-    nrand = nrand if nrand is not None else (4000 if thorough else 400)
+    nrand = nrand if nrand is not None else (2500 if thorough else 400)
     scripts += [random_script(rng, i, rng.randint(8, 50)) for i in range(nrand)]
     nshards = 8
     procs = []
